@@ -142,6 +142,15 @@ impl EventBuilder {
         }
     }
 
+    /// Adds a value read from a string (VarBytes) column: payload fields keep the exact string,
+    /// only the fixed fields (event_type, context_id, timestamp, event_id) are interpreted.
+    pub fn add_field_utf8(&mut self, field: &str, value: &str) {
+        match field {
+            "event_type" | "context_id" | "timestamp" | "event_id" => self.add_field(field, value),
+            _ => self.insert_value(field, ScalarValue::Utf8(value.to_string())),
+        }
+    }
+
     #[inline]
     fn add_payload_field(&mut self, field: &str, value: &str) {
         // Normalize whitespace
